@@ -153,16 +153,26 @@ struct Runner {
     const MeshGL64 gp = P.GetMeshGL64(), gq = Q.GetMeshGL64(), gr = R.GetMeshGL64();
     if (!TightBox(P, gp) || !TightBox(Q, gq) || !TightBox(R, gr)) fail("measure:bbox", {{"why", "BoundingBox is not the tight box of the vertices"}, {"seed", seed}});
     // MinGap = minimum triangle-to-triangle distance clamped to the search length (0 when the solids intersect)
-    if (gp.NumTri() * gq.NumTri() < 400000) {
-      const double vInt = (P ^ Q).Volume();
-      const double brute = vInt > 1e-9 ? 0.0 : MeshMeshDist(gp, gq);
+    // extra separated placements: vertex-to-face, edge-to-edge and vertex-to-vertex closest features all occur
+    if (gp.NumTri() * gq.NumTri() < 100000)
+      for (int rep = 0; rep < 3; rep++) {
+        vec3 dir = la::normalize(vec3(S(rng), S(rng), S(rng) + 0.05));
+        Manifold Q2 = Q.Translate(-Q.BoundingBox().Center()).Rotate(A(rng), A(rng), 0).Translate(P.BoundingBox().Center() + dir * (5.0 + S(rng)));  // farther apart than the sum of the radii: certainly disjoint
+        const MeshGL64 g2 = Q2.GetMeshGL64();
+        const double brute = MeshMeshDist(gp, g2);
+        const double g1 = P.MinGap(Q2, 100.0), gr2 = Q2.MinGap(P, 100.0);
+        if (std::fabs(g1 - brute) > 1e-9 || std::fabs(gr2 - brute) > 1e-9)
+          fail("measure:mingap", {{"why", "separated placement"}, {"want", brute}, {"got", g1}, {"gotReversed", gr2}, {"seed", seed}});
+      }
+    // the posed pair itself, only when the bounding boxes are disjoint (certainly non-intersecting solids)
+    if (gp.NumTri() * gq.NumTri() < 400000 && !P.BoundingBox().DoesOverlap(Q.BoundingBox())) {
+      const double brute = MeshMeshDist(gp, gq);
       for (double L : {0.25, 100.0}) {
         const double want = std::min(L, brute), g1 = P.MinGap(Q, L), g2 = Q.MinGap(P, L);
-        if (vInt > 1e-9 ? (g1 != 0 || g2 != 0) : (std::fabs(g1 - want) > 1e-9 || std::fabs(g2 - want) > 1e-9))
+        if (std::fabs(g1 - want) > 1e-9 || std::fabs(g2 - want) > 1e-9)
           fail("measure:mingap", {{"L", L}, {"want", want}, {"got", g1}, {"gotReversed", g2}, {"seed", seed}});
       }
     }
-    const double tol = std::max({R.GetTolerance(), P.GetTolerance(), Q.GetTolerance(), 1e-9}) * 4 + 1e-9;
     Box bb = P.BoundingBox().Union(Q.BoundingBox());
     std::uniform_real_distribution<double> X(bb.min.x - 0.2, bb.max.x + 0.2), Y(bb.min.y - 0.2, bb.max.y + 0.2), Z(bb.min.z - 0.2, bb.max.z + 0.2);
     const auto& tt = c["tt"];
@@ -214,7 +224,9 @@ int GenPosMain(int argc, char** argv) {
   for (long i = from; i < (long)cases.size(); i++) {
     out.line({{"begin", i}});
     Runner r;
-    for (long k = 0; k < reps; k++) r.run(cases[i], (uint32_t)(args.num("seed", 1) * 7919 + i * 131 + k), (int)npts);
+    // the per-case seed depends on the case itself, not on its position in the file (a confirmation re-run of one case must see the same parameters)
+    const uint32_t ch = (uint32_t)std::hash<std::string>{}(cases[i].dump());
+    for (long k = 0; k < reps; k++) r.run(cases[i], (uint32_t)(args.num("seed", 1) * 7919 + ch * 31 + k), (int)npts);
     if (!r.fails.empty()) nfail++;
     nontrivial += r.nontrivial > 0;
     judged += r.judged;
